@@ -79,6 +79,8 @@ class Potential_Form_Registry(object):
     for d in definitions:
       if d.signature.label in potential_forms:
         raise Potential_Form_Registry_Exception("Two potential forms have the same label in [Potential-Form] section: '{0}'".format(d.signature.label))
+      if d.signature.label in self._potential_forms:
+        raise Potential_Form_Registry_Exception("A [Potential-Form] entry and a [Table-Form] section have the same label: '{0}'".format(d.signature.label))
       func = _Cexptrk_Potential_Function(d)
       pf = Potential_Form(func)
       potential_forms[d.signature.label] = pf
@@ -91,7 +93,7 @@ class Potential_Form_Registry(object):
 
     for d in definitions:
       if d.name in self._potential_forms:
-        raise Potential_Form_Registry_Exception("Two potential forms have the same label in [Potential-Form] section: '{0}'".format(d.signature.label))
+        raise Potential_Form_Registry_Exception("[Table-Form:{0}] has the same label as an existing potential form: '{0}'".format(d.name))
 
       pf = builder.create_potential_form(d)
       table_forms[d.name] = pf
